@@ -4,7 +4,7 @@
    the operator admits" (what Specifier() accepts: C12). *)
 From Coq Require Import List Arith NArith Bool Lia.
 Import ListNotations.
-Require Import S1 VParse Py VMeaning VCmp SpecModel SpecOps SpecOps2 Prefix4 Compat Order Laws SpecParse SpecContains SpecSem SpecMain LawsAll SpecGate SpecLift VWf VKeyEq.
+Require Import S1 VParse Py VMeaning VCmp SpecModel SpecOps SpecOps2 Prefix4 Compat Order Laws SpecParse SpecContains SpecSem SpecMain LawsAll SpecGate SpecLift VWf VKeyEq SpecAdmit SpecSelf.
 Open Scope N_scope.
 
 Definition has (sp : specifier) (item : str) : outcome := contains sp None (Some true) item.
@@ -192,6 +192,19 @@ Print Assumptions C04_compat_is_intersection_any_setting.
 
 Example C04_lifted_nonvacuous : lift_check = true.
 Proof. vm_compute. reflexivity. Qed.
+
+(* 9. reflexivity: a version satisfies ==, >=, <=, ~= and === of itself and fails !=, < and > of itself - on the operator semantics, and on
+      contains() for ANY two spellings t (after the operator) and t2 (the candidate) of one version V the operator admits *)
+Theorem C04_self_match_semantics V : VMeaning.wf_version V ->
+  eq_spec V V = true /\ arb_spec V (vstr V) = true /\
+  (Py.local V = None -> ge_spec V V = true /\ le_spec V V = true /\ lt_spec V V = false /\ gt_spec V V = false /\
+                        ((2 <= length (Py.release V))%nat -> compat_spec V V = true)).
+Proof. exact (self_match_sem V). Qed.
+Print Assumptions C04_self_match_semantics.
+Theorem C04_self_match_contains o t t2 V : Version t = Some V -> Version t2 = Some V -> admits o V -> o <> OArb ->
+  exists sp, Specifier (op_txt o ++ t) = Some sp /\ contains sp None (Some true) t2 = Ans (reflexive_op o).
+Proof. exact (self_match_contains o t t2 V). Qed.
+Print Assumptions C04_self_match_contains.
 
 (* non-vacuity: ">= v1.0.RC1" admits a form; 1.0 and 1.0.0 are equal candidates that it matches *)
 Definition nonvac_check : bool :=
